@@ -1597,6 +1597,29 @@ MA('C10', 'composition reuses out as the intermediate of an aliased call', OPR,
    'tmp = self.__tmp if self.__tmp is not None else self.right.range.element()',
    'tmp = self.__tmp if self.__tmp is not None else (out if x is out and out in self.right.range else self.right.range.element())',
    'R3')
+M('C01', 'product-space lincomb converts the scalars to float', PSP,
+  """        for space, xp, yp, outp in zip(self.spaces, x.parts, y.parts,
+                                       out.parts):
+            space._lincomb(a, xp, b, yp, outp)""",
+  """        a, b = float(a), float(b)
+        for space, xp, yp, outp in zip(self.spaces, x.parts, y.parts,
+                                       out.parts):
+            space._lincomb(a, xp, b, yp, outp)""", 'R4p')
+M('C01', 'tensor space size ignores the shape of the data type', 'odl/space/base_tensors.py',
+  """        return (0 if self.shape == () else
+                int(np.prod(self.shape, dtype='int64')))""",
+  """        return (0 if self.shape == () else
+                int(np.prod(self.shape[-1:], dtype='int64')))""",
+  'R6s')
+MA('C15', 'deformation flattens the displacement in memory order', 'odl/deform/linearized.py',
+   'linear_deform', 'points[:, i] += vi.asarray().ravel()',
+   "points[:, i] += vi.asarray().ravel(order='K')", 'linear_deform')
+MA('C18', 'post-processing reads the stride of the first axis', FTU,
+   'dft_postprocess_data', 'stride = real_grid.stride[ax]',
+   'stride = real_grid.stride[0]', 'R2c')
+MA('C18', 'post-processing reads the minimum of the wrong axis', FTU,
+   'dft_postprocess_data', 'x = real_grid.min_pt[ax]',
+   'x = real_grid.min_pt[len(onedim_arrs)]', 'R2c')
 M('C15', 'element from a callable no longer owns its data (regression)', 'odl/discr/discr_space.py',
   "                sampled = np.array(sampled, copy=True)",
   "                pass", 'C15-R4c')
